@@ -275,7 +275,8 @@ func (m *Manager) open() {
 	m.debug.Log("Opening")
 	err := m.connect(false)
 	if err != nil {
-		m.cleanup()
+		// (`connect` has cleaned up. Here, the cleanup could hit the connection
+		// that another attempt has established in the meantime.)
 		m.maybeReconnectOnOpen()
 	}
 }
